@@ -28,7 +28,7 @@ MANIFEST = {
                  'model, AST ownership and identity-equality obligations; z3; native replay with weakref/gc; random interleavings as stand-in',
 }
 UNITS = ['unit_decorator', 'unit_model', 'unit_ownership']
-BOUNDED = ['bounded_interleavings']
+BOUNDED = ['bounded_interleavings', 'bounded_purity']
 META = {'clauses': {'C20.key': 'P', 'C20.inv': 'P over the abstract model + A (weakref / lru_cache axioms)', 'C20.transp': 'P (corollary)', 'C20.alive': 'P (static ownership) with known finding'},
         'not_decided': ['thread schedules (lru_cache locking assumed; GEMDAT starts no threads)', 'mutation of returned arrays by the caller']}
 
@@ -449,3 +449,10 @@ def bounded_interleavings(tier, seed):
         if r['reproduced']:
             st.violation('alive', r['detail'], 'verif.props.c20:replay_alive', {'method': 'all-but-collective'})
     return st.result()
+
+
+# generic purity stand-in (arguments unchanged, second call equal, fresh call equal) over this property's API calls
+from verif.native.purity import make_bounded as _make_purity  # noqa: E402
+from verif.props.purity_reg import REG as _PURITY_REG  # noqa: E402
+PURITY = _PURITY_REG['C20']
+bounded_purity = _make_purity('C20', PURITY)
